@@ -91,6 +91,7 @@ type End struct {
 	FailNextWrites     int   // the next n Writes fail (then the plan continues)
 	WriteFailsWithRead bool  // once a Read has failed by plan, Writes fail too
 	ReadFailed         bool
+	WriteFaulted       bool // a Write call was refused by WriteFailAt
 	// hooks run inline in the calling thread
 	readBrk     chan struct{}
 	readDown    bool
@@ -232,6 +233,7 @@ func (e *End) Write(ctx context.Context, rpc *Rpc) error {
 		}
 	}
 	if e.WriteFailAt >= 0 && k >= e.WriteFailAt {
+		e.WriteFaulted = true
 		return ErrWriteFault
 	}
 	if e.WriteFailsWithRead && e.ReadFailed {
